@@ -1619,6 +1619,8 @@ func (c *Ctx) checkAvatarLinkOnlyWithDesc() {
 		for _, u := range c.regionCallsTo(fn, topicsUpdate) {
 			args := core.CallArgs(u.Common())
 			maps = append(maps, core.Strip(args[len(args)-1]))
+			// the store phase in a helper that receives the map: the map at the helper's call site
+			maps = append(maps, core.Strip(c.rootValue(args[len(args)-1])))
 		}
 		for _, l := range core.CallsTo(lfn, link) {
 			n++
